@@ -14,7 +14,7 @@ request : `<stride> <crash01> <deadwarn01> <obs|-> stmt*`
     `m` label+macro call, `n`/`g`/`k` label+call of an INTLABEL macro (label unused / placed by the body with
     GLOBALSYMBOLS / placed locally), `s` label+structure instantiation, `e` EQU, `t` SET, `u` reference · `I<argc>:<cond>` with cond `e<0|1>`, `d|u|x<neg><raw>`, `b<neg><flags>` ·
     `EI<argc>:<0|1>` ELSEIF/ELSE · `EN<argc>` ENDIF · `S<argc>:<val>` · `C:<val>,…` · `EC<argc>` · `ED<argc>`
-    with val `i<int>`, `f<int>`, `s<hex|->`
+    with val `i<int>`, `f<int>`, `s<hex|->` · `Z[:<how>]` a line that issues END (`how` = spelling, ignored here)
 answer  : `wn=<0|1> skel=<0|1> mout=<hex> merrs=<list> mcrash=<0|1> mstack=<n>` and, with obs,
           `model=<eq|ne> spec=<ok|bad|na> why=<…> ifbsens=<0|1> armless=<n> alt=<eq|ne>`
   * wn    – SPEC: the statement list is well nested (`WellNested`)
@@ -25,6 +25,12 @@ answer  : `wn=<0|1> skel=<0|1> mout=<hex> merrs=<list> mcrash=<0|1> mstack=<n>` 
             defining leaf gives it (label → address of the leaf's own code, EQU/SET → the operand; why=label-value),
             the set of symbols found referenced = `usedBy (selB b)` (why=used);
             not well nested ⇒ at least one error (number ≥ 1000) reported and no crash
+  * with `Z` lines: `ends=<n>` END lines, `cons=<n|?>` – SPEC: number of statements in front of the END that ends the
+            pass (first END whose place is `AssembledAt … true`; all statements when there is none; `?` when the text in
+            front of some END is not the beginning of a skeleton, so that the manual does not say whether it is assembled),
+            `endeff=<0|1>` an END ended the pass, `open=<n>` constructs open there (`x` = a statement in an illegal place);
+            wn / skel / spec are about the consumed statements; with `cons=?` the spec only demands an error when *every*
+            candidate (the text in front of each END, the whole text) is ill nested; `mread=<n>` statements the MODEL read
   * armless – number of SWITCH constructs without any CASE/ELSECASE in the skeleton (signature help)
   * alt   – observed markers = `selB` with every IFB judged by the pinned tree's stride-2 loop (signature help);
             altw – observed number of warnings = `warnB` of that re-labelled skeleton
@@ -197,18 +203,57 @@ def valueOK (l : Leaf) (o : ObsDef) : Bool :=
   | .equ | .set => o.value == l.marker
   | _ => true
 
+
+def parseLine (s : String) : Option Line :=
+  match s.toList with
+  | 'Z' :: _ => some .endl
+  | _ => (parseStmt s).map Line.stmt
+
+def isEndl : Line → Bool | .endl => true | _ => false
+
+/-- SPEC `AssembledAt`, decided with the skeleton reader: `none` = `pre` is not the beginning of a skeleton's text -/
+def specLive (pre : List Stmt) : Option Bool :=
+  match wnRun [] pre with
+  | some st =>
+    match toSkel (pre ++ closers st), toSkel (pre ++ .leaf probeLeaf :: closers st) with
+    | some b0, some b1 => some ((codeOf (selB b1)).length == (codeOf (selB b0)).length + 1)
+    | _, _ => none
+  | none => none
+
+/-- SPEC: the statements in front of the END that ends the pass (`none` = not determined), and whether an END ended it -/
+def specConsumed (acc : List Stmt) : List Line → Option (List Stmt × Bool)
+  | [] => some (acc, false)
+  | .stmt s :: r => specConsumed (acc ++ [s]) r
+  | .endl :: r =>
+    match specLive acc with
+    | some true => some (acc, true)
+    | some false => specConsumed acc r
+    | none => none
+
+/-- every text the pass may have consumed: in front of each END, and the whole -/
+def candidates (acc : List Stmt) : List Line → List (List Stmt)
+  | [] => [acc]
+  | .stmt s :: r => candidates (acc ++ [s]) r
+  | .endl :: r => acc :: candidates acc r
+
 def handle (line : String) : String :=
   match words line with
   | stride :: crash :: dw :: obs :: toks =>
-    match stride.toNat?, crash.toNat?, dw.toNat?, toks.mapM parseStmt with
-    | some st, some cr, some dwn, some ss =>
+    match stride.toNat?, crash.toNat?, dw.toNat?, toks.mapM parseLine with
+    | some st, some cr, some dwn, some lines =>
       let cfg : Cfg := { ifbStride := st, elsecaseNullCrash := cr != 0, deadSwitchWarns := dwn != 0 }
-      let m := endPass (run cfg init ss)
+      let m := passL cfg lines
+      let nends := (lines.filter isEndl).length
+      let cons := specConsumed [] lines
+      let ss := match cons with | some (c, _) => c | none => stmtsOf lines
+      let allIll := (candidates [] lines).all fun c => !decide (WellNested c)
       let mout := m.codes
       let merrs := m.errs.reverse
       let wn := decide (WellNested ss)
-      let sk := toSkel ss
+      let sk := if cons.isNone then none else toSkel ss
       let pred := s!"wn={if wn then 1 else 0} skel={if sk.isSome then 1 else 0} mout={hexNats mout} merrs={showNats merrs} mcrash={if m.crashed then 1 else 0} mstack={m.stack.length}"
+      let pred := if nends = 0 then pred else
+        pred ++ s!" ends={nends} cons={match cons with | some (c, _) => toString c.length | none => "?"} endeff={match cons with | some (_, true) => 1 | _ => 0} open={match wnRun [] ss with | some o => toString o.length | none => "x"} mread={(readL cfg init lines).length}"
       if obs = "-" then pred else
       match (match obs.splitOn ";" with | [a, b, c] => some (a, b, c, "-") | [a, b, c, d] => some (a, b, c, d) | _ => none) with
       | some (oh, oe, ost, osy) =>
@@ -236,7 +281,12 @@ def handle (line : String) : String :=
               else if ouset != toSet (usedBy (selB b)) then ("bad", "used")
               else ("ok", "-")
             | none =>
-              if !wn then
+              if cons.isNone then
+                if !allIll then ("na", "-")
+                else if ocrash then ("bad", "crash")
+                else if ohard.isEmpty || ost = "0" then ("bad", "unreported")
+                else ("ok", "-")
+              else if !wn then
                 if ocrash then ("bad", "crash")
                 else if ohard.isEmpty || ost = "0" then ("bad", "unreported")
                 else ("ok", "-")
